@@ -211,7 +211,7 @@ Definition bash_conv : converter bstate atom :=
     (* copy *) (fun dst src global s =>
        let d := var_name s dst global in
        let s1 := set_flags true true false (add_line (LSch d src) s) in
-       helper_assign (RSliceLen (ARef d)) s1)
+       helper_assign (RSliceLen src) s1)
     (* exists *) (fun p s => helper_assign (RExists p) s)
     (* read_file *) (fun p s => helper_assign (RCat p) s)
     (* dump *) (fun s => render_script (b_start s ++ b_code s)).
